@@ -167,6 +167,12 @@ func cmdCheck(args []string) int {
 				fmt.Printf("    solver error: %s\n", e)
 			}
 			native := h.NativeReplay == nil || *h.NativeReplay
+			if s.InitFaults > 0 {
+				// a worker's package initialisation died inside the interpreter: its paths are unreliable
+				fmt.Printf("    ENGINE: %d package init fault(s) in %s - counterexamples of this run are not reported\n", s.InitFaults, h.Fn)
+				s.Violations = nil
+				engineErr = true
+			}
 			// confirm violations
 			seenKey := map[string]bool{}
 			tries := map[string]int{}
